@@ -192,19 +192,24 @@ func (k *Config) OPLSyntaxAPIListenOn() (addr string, listenFile string) {
 	return k.addressFor(EndpointOPLSyntax)
 }
 
+// The limits are read with the locking getters of the provider (the ...F
+// variants; the fallbacks are the defaults of the config schema): the plain
+// getters read the provider's state without its lock, which is a data race
+// with a configuration reload while requests are being served.
+
 func (k *Config) MaxReadDepth() int {
-	return k.p.Int(KeyLimitMaxReadDepth)
+	return k.p.IntF(KeyLimitMaxReadDepth, 5)
 }
 func (k *Config) MaxReadWidth() int {
-	return k.p.Int(KeyLimitMaxReadWidth)
+	return k.p.IntF(KeyLimitMaxReadWidth, 100)
 }
 
 func (k *Config) BatchCheckMaxBatchSize() int {
-	return k.p.Int(KeyBatchCheckMaxBatchSize)
+	return k.p.IntF(KeyBatchCheckMaxBatchSize, 10)
 }
 
 func (k *Config) BatchCheckParallelizationLimit() int {
-	return k.p.Int(KeyBatchCheckParallelizationLimit)
+	return k.p.IntF(KeyBatchCheckParallelizationLimit, 5)
 }
 
 func (k *Config) CORS(iface string) (cors.Options, bool) {
@@ -223,7 +228,7 @@ func (k *Config) CORS(iface string) (cors.Options, bool) {
 }
 
 func (k *Config) DSN() string {
-	dsn := k.p.String(KeyDSN)
+	dsn := k.p.StringF(KeyDSN, "")
 	if dsn == "memory" {
 		return DSNMemory
 	}
@@ -235,7 +240,7 @@ func (k *Config) Fetcher() *fetcher.Fetcher {
 	// here, because the otelhttp package will preferentially use the
 	// tracer from the incoming request context over this one.
 	opts := []httpx.ResilientOptions{httpx.ResilientClientWithTracer(noop.NewTracerProvider().Tracer("keto/internal/driver/config"))}
-	if k.p.Bool("clients.http.disallow_private_ip_ranges") {
+	if k.p.BoolF("clients.http.disallow_private_ip_ranges", false) {
 		opts = append(opts, httpx.ResilientClientDisallowInternalIPs())
 	}
 	return fetcher.NewFetcher(
